@@ -562,7 +562,9 @@ def reference(key: dict, args_spec: list, ctxname) -> list:
                 return got[1]
         except Exception:
             pass
-    kind, val = core.forked(_ref_eval, key, args_spec, ctxname, timeout=90.0)
+    from sim import zygote
+    zygote.start()
+    kind, val = zygote.request({'kind': 'ref', 'key': key, 'args': args_spec, 'ctx': ctxname}, timeout=90.0)
     val = val if kind == 'ok' else ['undecided', kind]
     _REF_MEMO[mk] = val
     if path and val[0] != 'undecided':
@@ -633,8 +635,10 @@ def _vio(cls: str, base_sig: dict, detail: dict, run: dict) -> dict:
 # one simulated run
 
 def simulate(run: dict, timeout: float = 180.0):
-    kind, out = core.forked(execute_run, run, timeout=timeout)
-    return kind, out
+    """One hermetic execution: a fresh fork of the zygote (sim/zygote.py)."""
+    from sim import zygote
+    zygote.start()
+    return zygote.request({'kind': 'run', 'run': run}, timeout=timeout)
 
 
 def run_one(seed: int, tier: str, sub: str) -> dict:
@@ -761,11 +765,14 @@ def minimise(v: dict) -> dict:
         if _fails_same(explicit, cls, fn):
             def coarsen(segs):
                 merged = []
-                for t, n in segs:
-                    if merged and merged[-1][0] == t:
+                for ent in segs:
+                    t, n = ent[0], ent[1]
+                    if merged and merged[-1][0] == t and len(merged[-1]) == 2:
                         merged[-1][1] += n
+                        if len(ent) > 2:
+                            merged[-1].append(ent[2])
                     else:
-                        merged.append([t, n])
+                        merged.append(list(ent))
                 return merged
             segs = coarsen(segs)
             # try to drop whole segments' pre-emptions (merge neighbours of the same thread after removal)
@@ -818,7 +825,12 @@ def main(tier: str) -> int:
     total = float(os.environ.get('VERIF_BUDGET_S', total))
     parts = [('plain', 'run_plain', 0.35), ('faults', 'run_faults', 0.5), ('captured', 'run_captured', 0.15)]
     setup_ref_dir()
-    return _main(tier, total, parts)
+    from sim import zygote
+    zygote.start()
+    try:
+        return _main(tier, total, parts)
+    finally:
+        zygote.stop()
 
 
 def _main(tier: str, total: float, parts: list) -> int:
